@@ -875,7 +875,7 @@ class Interp:
                     raise Undecided(f"operator {type(op).__name__} on tensors")
                 return _arith(sym, a, b)
         if isinstance(a, (list, tuple)) and isinstance(b, (list, tuple)) and isinstance(op, ast.Add):
-            return list(a) + list(b)
+            return tuple(a) + tuple(b) if isinstance(a, tuple) and isinstance(b, tuple) else list(a) + list(b)
         if a is SHAPE or b is SHAPE:
             return SHAPE
         if isinstance(a, str) and isinstance(b, str) and isinstance(op, ast.Add):
